@@ -351,8 +351,42 @@ def manifest():
         "notes": "Every check: bin/check <id> quick|thorough. Exit 0 held / 1 VIOLATION / 2 broken machinery. "
                  "known_findings.json lists recorded defects and fixed: entries. See DESIGN.md. "
                  "Additional specifications beyond the listed properties (context.WithCancelError, chans, ulidutils, MMFile, HashDir, "
-                 "slice/map helpers) run as bin/check X01..X06 (DESIGN.md 9.5); they are not claimed here.",
+                 "slice/map helpers, config enricher, files tree helpers, bytes.Buffer, WrapChannel/Sleep, transport config, log levels) "
+                 "run as bin/check X01..X11 (DESIGN.md 9.5); they are not claimed here.",
     }
 
 
 NOT_APPLICABLE = {}
+
+# what later rounds of seeded changes added (DESIGN.md section 10); appended to the texts above
+ADDENDA = {
+    "C01": " Added: callers spinning on TryLock/Unlock of providers that sit directly on the store (no serialising facade); real-lease "
+           "hand-off while the reply of the old holder's renewal is held back.",
+    "C03": " The contract's pattern language also has gobwas alternatives {a,b} and character classes (in-memory backend; plain classes on both).",
+    "C04": " Added: real-lease scenario in which the reply of a renewal is in flight when Unlock runs; LeaseTrace rule (d): once Unlock has "
+           "returned every probe of the store finds the record absent until somebody creates it again.",
+    "C05": " Added: a tenure of 30-60 lease periods; the holder's provider shut down while the lock is held followed by a transient renewal failure.",
+    "C06": " Patterns include literal keys.",
+    "C07": " Added: waiters whose context carries a deadline (the context's error only once the context is done; a record that runs out before "
+           "the deadline wakes the waiter promptly with ErrNotExist), both backends, PromptTrace.tla.",
+    "C08": " A few long recorded traces run on capacities 100 / 257 / 1000.",
+    "C10": " Added scenarios: 40-90 iterators parked on as many entries that are all removed; forgotten iterators under garbage-collection "
+           "pressure (Drop event, unlogged stuttering iterators); an iterator parked on removed entries across 4000+ add/remove cycles of one key.",
+    "C11": " Added: reachability probes that ask the garbage collector itself - pointer keys/values with finalizers must become collectable "
+           "once their entries left the map (also after 4000+ add/remove cycles under a parked iterator) or the cache (GcProbe lines of RetentionTrace.tla).",
+    "C13": " Added: invariant WindDownArmed; two wrong variants of TimerImpl.tla (late decrement on retire, quiet cancel) that TLC must reject "
+           "in every run; retire-boundary stress with an idle time-out of 1 ns.",
+    "C14": " Added: RingBig.tla, the contract specialised to a consecutive-integers workload so that replies can be summarised (TLC proves it "
+           "equal to RingBuffer!Apply summarised for every small case); recorded traces on capacities 40..65537 with arguments landing on the "
+           "physical end of the array, the fill level and powers of two are validated against it (RingBigTrace.tla).",
+    "C15": " Every body length 0..600 and around powers of two up to 64 KiB goes through Marshal and ObjectsWriter; independence of a "
+           "newBuf=true result includes its capacity.",
+    "C17": " Added: a block size of three pages filled beyond 8 x page blocks (anonymous 1.2 GB mapping); exhaustion before the buffer grows by "
+           "whole segments with the live allocator's accounting; the buffer scenarios run in a process of their own whose death by a memory "
+           "fault is a verdict.",
+    "C19": " Unrelated siblings in error trees include context.Canceled / DeadlineExceeded and io.EOF.",
+    "C20": " Added: archives with symbolic-link entries (chains of links harmless one by one); source directory given relative to the "
+           "working directory with names that repeat it; the > 64 MiB file always travels without filter.",
+}
+for _pid, _add in ADDENDA.items():
+    CHECKS[_pid]["text"] = CHECKS[_pid]["text"].rstrip() + _add
